@@ -63,6 +63,34 @@ class rake_:
         return not (no_flop_no_drop and not any(state.board_cards)) or (r[0] == 0 and r[1] == amount)
 
 
+def _rake_native_case(model, ob):
+    """the counter-model lives in the model of round() as "some integer within 1/2": CPython rounds ties to even, so the model's own
+    amount need not be a failing input.  Search a grid of integer and Fraction amounts for a real one."""
+    import fractions
+    from pokerkit.utilities import rake
+    clause = getattr(rake_, ob['meta']['clause'].rsplit('.', 1)[1])
+    if ob['kind'] != 'P':
+        return None
+    for cap in (float('inf'), 3, 0):
+        for pct in (0, 0.05, 0.1, 0.25, 0.5, 1, fractions.Fraction(1, 10), fractions.Fraction(1, 3)):
+            for amount in list(range(0, 61)) + [fractions.Fraction(k, 2) for k in range(0, 41)]:
+                try:
+                    r = rake(amount, percentage=pct, cap=cap)
+                except Exception as e:   # noqa
+                    return {'confirmed': True, 'detail': f'rake({amount!r}, percentage={pct!r}, cap={cap!r}) raised {type(e).__name__}: {e}'}
+                b = {'amount': amount, 'cap': cap, 'r': r, 'percentage': pct, 'no_flop_no_drop': False, 'state': None}
+                import inspect
+                f = clause.__func__ if isinstance(clause, staticmethod) else clause
+                val = f(*[b[p_] for p_ in inspect.signature(f).parameters])
+                if not val:
+                    return {'confirmed': True, 'detail': f'rake({amount!r}, percentage={pct!r}, cap={cap!r}) = {r!r}: clause '
+                                                         f'{ob["meta"]["clause"].rsplit(".", 1)[1]} is false'}
+    return {'confirmed': None, 'detail': 'no failing input on the grid of amounts / percentages / caps'}
+
+
+rake_.native_case = staticmethod(_rake_native_case)
+
+
 # ---- utilities.clean_values --------------------------------------------------------------------------------
 class CleanBase:
     raises = {}
